@@ -4,6 +4,67 @@ import (
 	. "github.com/frankkopp/FrankyGo/internal/types"
 )
 
+// vxGeomFeasible: can (from, to, type) be a move of any piece on any board at all?
+func vxGeomFeasible(k int) bool {
+	from, to, mt := (k>>6)&63, k&63, k>>12
+	if from == to {
+		return false
+	}
+	f1, r1, f2, r2 := from&7, from>>3, to&7, to>>3
+	df, dr := vxAbs(f2-f1), vxAbs(r2-r1)
+	switch mt {
+	case 0:
+		return df == 0 || dr == 0 || df == dr || (df == 1 && dr == 2) || (df == 2 && dr == 1)
+	case 1:
+		return df <= 1 && ((r1 == 6 && r2 == 7) || (r1 == 1 && r2 == 0))
+	case 2:
+		return df == 1 && ((r1 == 4 && r2 == 5) || (r1 == 3 && r2 == 2))
+	case 3:
+		return (from == 4 && (to == 6 || to == 2)) || (from == 60 && (to == 62 || to == 58))
+	}
+	return false
+}
+
+// vxNumFeasible / vxNthFeasible enumerate the geometrically feasible (from, to, type) triples; all
+// other triples have no pseudo-legal move on any board (the pseudo-legality assumption is
+// unsatisfiable for them), so the case split over the feasible ones is complete.
+func vxNumFeasible() int {
+	n := 0
+	for k := 0; k < 4*4096; k++ {
+		if vxGeomFeasible(k) {
+			n++
+		}
+	}
+	return n
+}
+
+// order: castling, en passant, promotion first (vxNumSpecial of them, always part of the quick
+// tier), then the normal moves
+func vxNthFeasible(i int) int {
+	n := 0
+	for mt := 3; mt >= 0; mt-- {
+		for k := mt * 4096; k < (mt+1)*4096; k++ {
+			if vxGeomFeasible(k) {
+				if n == i {
+					return k
+				}
+				n++
+			}
+		}
+	}
+	return 0
+}
+
+func vxNumSpecial() int {
+	n := 0
+	for k := 4096; k < 4*4096; k++ {
+		if vxGeomFeasible(k) {
+			n++
+		}
+	}
+	return n
+}
+
 // vxMoveSq: pseudo-legal move with CONCRETE origin and destination (k = from*64+to); move type and
 // promotion piece symbolic. The state is passed so that the move can be assumed pseudo-legal.
 func vxMoveSqRaw(k int) Move {
@@ -34,12 +95,10 @@ func vxSymMove(s *VxState, mt int) Move {
 	return m
 }
 
-// C02: DoMove yields the rule-defined successor, one step from an arbitrary legal position
-// (case split on the move type only: 0 normal, 1 promotion, 2 en passant, 3 castling).
-func VN_C02_domove() int { return 4 }
-func VH_C02_domove(mt int) {
-	p, s := VxSymPosL("", false)
-	m := vxSymMove(&s, mt)
+// C02: DoMove yields the rule-defined successor, one step from an arbitrary well-formed position.
+// Quick: origin, destination and move type concrete (16384 cases, 192 by seed), everything else
+// symbolic. Thorough adds the variant with symbolic squares (case split on the move type only).
+func vxCheckDoMove(p *Position, s *VxState, m Move) {
 	want := s.VxSpecDoMove(m)
 	p.DoMove(m)
 	got := p.VxState()
@@ -58,8 +117,22 @@ func VH_C02_domove(mt int) {
 	vxAssert(p.KingSquare(White) == want.VxKingSq(White) && p.KingSquare(Black) == want.VxKingSq(Black), "domove.king-squares")
 	vxAssert(p.LastMove() == m, "domove.LastMove")
 	vxAssert(p.LastCapturedPiece() == s.Board[m.To()], "domove.LastCapturedPiece")
-	vxAssert(p.historyCounter == vxOldCounter(p)+0, "domove.dummy")
 	vxReach("domove.end")
 }
 
-func vxOldCounter(p *Position) int { return p.historyCounter }
+func VN_C02_domove() int { return vxNumFeasible() }
+func VQ_C02_domove() int { return 192 }
+func VF_C02_domove() int { return vxNumSpecial() }
+func VH_C02_domove(i int) {
+	m := vxMoveSqRaw(vxNthFeasible(i))
+	p, s := VxSymPosFreeL("", nil)
+	vxAssume(s.VxSpecPseudoLegal(m))
+	vxCheckDoMove(p, &s, m)
+}
+
+func VN_C02_domove_symbolic_squares_T() int { return 4 }
+func VH_C02_domove_symbolic_squares_T(mt int) {
+	p, s := VxSymPosFreeL("", nil)
+	m := vxSymMove(&s, mt)
+	vxCheckDoMove(p, &s, m)
+}
